@@ -34,6 +34,11 @@ def plan(tier, seed):
     cases += rowlib.gen_cases(G.deletions(rng, 120 if quick else 1500), 8, CFGS_Q, "del")
     cases += rowlib.gen_cases(G.additions(rng, 40 if quick else 400), 8, CFGS_Q, "add")
     cases += rowlib.gen_cases(G.marker_collisions(rng, 40 if quick else 400), 8, CFGS_Q, "marker")
+    cases += rowlib.gen_cases(G.dative(rng, 48 if quick else 400), 8, CFGS_Q, "dative")
+    # large batches in which many rows (also at positions >= 10, >= 100) are rewritten by the reagent templates
+    big = G.redox_family(rng, 60 if quick else 600) + G.deletions(rng, 30 if quick else 300)
+    rng.shuffle(big)
+    cases += rowlib.gen_cases(big, 30 if quick else 120, [CFGS_Q[0], CFGS_Q[3]], "bigredox")
     # mixed batches: redox rows (post-processed), MCS rows (solved only in the final pass), rule-based and
     # balanced rows shuffled together, so that bookkeeping between the passes is exercised across row kinds
     from vgen import corpus as _corpus
@@ -60,6 +65,7 @@ def plan(tier, seed):
                                   [{"batch_size": None, "threshold": 0, "n_jobs": 16}], tag="corpus_nj16")
     shards = rowlib.spread(cases, 16 if quick else 48)
     shards += [{"cases": [c]} for c in nj]
+    shards.append({"element_keys": True})
     return shards
 
 
@@ -124,7 +130,46 @@ def faulted_case(case, res):
         judge({"inputs": case["inputs"][: len(out["rows"])], "cfg": case.get("cfg"), "tag": "fault"}, out, res)
 
 
+def element_keys(res):
+    """every element Z = 1..118 through the real decomposer: the key it is counted under must be its own symbol.
+    Where it is not (two elements sharing a key), exchange reactions between the element and the owner of that
+    key - unbalanced by construction - are driven through the real Balancer and judged like every other row."""
+    from rdkit import Chem
+    from synrbl.SynProcessor import RSMIDecomposer
+    pt = Chem.GetPeriodicTable()
+    suspicious = []
+    for z in range(1, 119):
+        sym = pt.GetElementSymbol(z)
+        try:
+            d = RSMIDecomposer.decompose("[%s]" % sym)
+        except Exception:
+            continue
+        keys = [k for k in d if k != "Q"]
+        res.count("element_keys_audited")
+        if keys != [sym]:
+            for k in keys:
+                try:
+                    if k != sym and pt.GetAtomicNumber(k) > 0:
+                        suspicious.append((sym, k))
+                except Exception:
+                    pass
+    res.count("elements_counted_under_another_symbol", len(suspicious))
+    inputs = []
+    for a, b in suspicious:
+        for tmpl in ("Cl[%s]Cl.CC>>Cl[%s]Cl.CC", "[%s+2].[O-]C(C)=O>>[%s+2].[O-]C(C)=O", "C[%s]C.O>>C[%s]C.O"):
+            for x, y in ((a, b), (b, a)):
+                rx = tmpl % (x, y)
+                if oracle.in_domain_rsmi(rx):
+                    inputs.append(rx)
+    if inputs:
+        case = {"tag": "element_exchange", "inputs": inputs, "cfg": CFGS_Q[0]}
+        judge(case, rowlib.run_case(case), res)
+
+
 def work(shard, res, tier, seed):
+    if "element_keys" in shard:
+        element_keys(res)
+        return
     if "replay" in shard:
         v = shard["replay"]
         case = {"tag": "replay", "inputs": v["inputs"], "cfg": v.get("cfg")}
@@ -149,4 +194,4 @@ def work(shard, res, tier, seed):
 
 def conclude_args(res, tier, seed):
     return {"need": {"solved_by:rule-based": 5, "solved_by:mcs-based": 5,
-                     "solved_by:input-balanced": 5}, "min_cases": 20}
+                     "solved_by:input-balanced": 5, "element_keys_audited": 100}, "min_cases": 20}
